@@ -40,3 +40,11 @@ func LocalFeatureDataCopyOfType[T any](feature api.FeatureLocalInterface, functi
 func RemoteFeatureDataCopyOfType[T any](remote api.FeatureRemoteInterface, function model.FunctionType) (T, error) {
 	return dataCopyOfType[T](remote.DataCopy(function))
 }
+
+// the address of a remote device is unknown until its detailed discovery data was received
+func deviceAddressString(address *model.AddressDeviceType) string {
+	if address == nil {
+		return ""
+	}
+	return string(*address)
+}
